@@ -88,8 +88,11 @@ import io, json, os, re, sys, threading
 import common
 from common import Outcome
 
-PRE = ('From DoitV Require Import Base Dispatch Runner Delayed.\nOpen Scope N_scope.\n'
+PRE = ('From DoitV Require Import Base Dispatch Runner Delayed DelayedRunP DelayedWf.\nOpen Scope N_scope.\n'
        'Definition FUEL : nat := N.to_nat 4000.\n')
+# recorded scripts of real parallel runs are also run through DelayedRunP.wf_script (the protocol hypothesis of the
+# any-schedule theorems C15_*_any_schedule): the model must answer [-3; 1] = the script follows the runner protocol
+WF_OK = [-3, 1]
 CHECK = {'run': 'CkRun', 'utd': 'CkUpToDate', 'err': 'CkError'}
 OUTC = {'ok': 'OOk', 'fail': 'OFail', 'error': 'OError'}
 DEFAULT_BEH = dict(check='run', outcome='ok', dbignore=False, teardown=False)
@@ -827,7 +830,7 @@ def render(case, snap, wake, nid, sfx, script=None):
     # iteration order of the calc_dep sets: ascending hash slot of the provider names (see provider_names)
     defs.append('Definition ck%s (x : name) : N := %s.' % (sfx, match1([(k, r) for k, r in snap.get('calc_rank', [])], '50 + x', 'x')))
     fmt = '%s ' + MODEL_VARIANT + ' ' + MODEL_SELVER + ' cr%s wk%s ck%s %s %s bo%s ix%s rm%s rn%s %s FUEL (loaded tb%s ld%s tg%s) %s %s'
-    expr = fmt % ('run_cmd' if script is None else 'run_script_cmd',
+    expr = fmt % ('run_cmd' if script is None else 'run_script_wf_cmd',
                   sfx, sfx, sfx, b(case['cont']), b(case['always']), sfx, sfx, sfx, sfx, b(case['auto']), sfx, sfx, sfx,
                   nl(snap['order']), selc)
     expr += ('' if script is None else ' ' + script) + ' %d%%nat' % (len(nid.m) + 2)
@@ -2126,7 +2129,7 @@ def run_sequence(case, runs, out, cases=None, metas=None, sfx='r0', verbose=Fals
             else:
                 defs, expr = render(ci, res['snap'], res['wake'], res['nid'], s_, script=ops_of(res))
                 tr = res['strace']
-            cases.append(dict(defs=defs, model=expr, expected=tr + [-1, res['rc']] + ([] if tr[:1] == [40] else [-2, 1]),
+            cases.append(dict(defs=defs, model=expr, expected=tr + [-1, res['rc']] + ([] if tr[:1] == [40] else [-2, 1]) + ([] if fl == 'serial' or tr[:1] == [40] else WF_OK),
                               desc=dict(sel=ci['sel'], auto=ci['auto'], kind=case['kind'], flavour=fl, par=par,
                                         run_in_process='%d of %d' % (i + 1, len(runs)), earlier=[cmd_of(x) for x in runs[:i]])))
             metas.append((ci, res))
@@ -2264,7 +2267,7 @@ def run_parallel(ctx, case, out, idx, par, cases, metas, tag):
         return res_p
     sfx = '%sp%d' % (idx, tag)
     defs, expr = render(case, res_p['snap'], res_p['wake'], res_p['nid'], sfx, script=ops_of(res_p))
-    expected = res_p['strace'] + [-1, res_p['rc']] + ([] if res_p['strace'][:1] == [40] else [-2, 1])
+    expected = res_p['strace'] + [-1, res_p['rc']] + ([] if res_p['strace'][:1] == [40] else [-2, 1] + WF_OK)
     cases.append(dict(defs=defs, model=expr, expected=expected,
                       desc=dict(sel=case['sel'], auto=case['auto'], kind=case['kind'], flavour='dthread', par=par)))
     metas.append((case, res_p))
